@@ -113,6 +113,23 @@ def install():
     Learner2D._fill_stack = _patched_fill
 
 
+import adaptive.learner.learner2D as _L2D_MOD
+
+_ORIG_CHOOSE = _L2D_MOD.choose_point_in_triangle
+
+
+def _choose_vertex(triangle, max_badness):
+    """STUB geometry (scripted corpus only, op ["stub", "vertex"]): propose the first VERTEX of the triangle instead of a point
+    inside it.  The vertices of the combined triangulation are the evaluated and the pending points, so `_fill_stack` proposes
+    points that are pending already - something the real `choose_point_in_triangle` (centroid / midpoint of the longest edge)
+    never does.  Both the recorder (`_full_candidates`) and the real `_fill_stack` resolve the name in the module at call time."""
+    return np.array(triangle[0])
+
+
+def set_stub(kind):
+    _L2D_MOD.choose_point_in_triangle = _choose_vertex if kind == "vertex" else _ORIG_CHOOSE
+
+
 def _is_gzip(fname):
     with open(fname, "rb") as f:
         return f.read(2) == b"\x1f\x8b"
@@ -178,6 +195,7 @@ def execute(case, script=None):
         return _execute(case, rng, l, r, script)
     finally:
         _REC = None
+        set_stub(None)
 
 
 def _execute(case, rng, l, r, script):
@@ -219,7 +237,22 @@ def _execute(case, rng, l, r, script):
     def do_ask(n, commit):
         def do():
             stack_before = list(l._stack.items())
-            pts, imps = l.ask(n, tell_pending=commit)
+            pending_before = set(l.pending_points)
+            data_before = list(l.data.items())
+            try:
+                pts, imps = l.ask(n, tell_pending=commit)
+            except ValueError:
+                if not commit:
+                    # a non-committing ask that raises leaves the learner as it found it (repaired in /repo: 844d031)
+                    r.count("ask_noncommit_raised")
+                    if stack_before and n > 0:
+                        r.count("ask_noncommit_raised_after_marking_stack_entries")
+                    if (list(l._stack.items()), set(l.pending_points), list(l.data.items())) != \
+                            (stack_before, pending_before, data_before):
+                        r.count("ask_noncommit_raised_CHANGED_STATE")
+                else:
+                    r.count("ask_commit_raised")
+                raise
             if commit:
                 for p in pts:
                     if p not in outstanding:
@@ -228,6 +261,11 @@ def _execute(case, rng, l, r, script):
                 r.count("ask_noncommit")
                 if list(l._stack.items()) != stack_before:
                     r.count("ask_noncommit_changed_stack")
+                # a non-committing ask leaves the pending set as it found it (repaired in /repo: e806eb2)
+                if set(l.pending_points) != pending_before:
+                    r.count("ask_noncommit_CHANGED_PENDING")
+                if any(p in pending_before for p in pts):
+                    r.count("ask_noncommit_returned_point_pending_before")
             if len(set(pts)) != len(pts):
                 r.count("ask_returned_duplicate_points")
             if len(pts) != n:
@@ -307,6 +345,9 @@ def _execute(case, rng, l, r, script):
                 ok = do_ru()
             elif op[0] == "restore":
                 ok = do_restore(op[1])
+            elif op[0] == "stub":
+                set_stub(op[1])
+                ok = True
             else:
                 raise ValueError(op)
             if not ok:
@@ -400,12 +441,35 @@ CORPUS = [
     {"name": "restore_with_pending", "seed": 1, "nops": 0, "bounds": 0, "fn": "ring",
      "script": [["ask", 7, 1], ["restore", "pickle"], ["ask", 3, 1], ["tell_all"], ["ask", 5, 1], ["restore", "file"],
                 ["ask", 4, 1], ["tell_all"], ["remove_unfinished"], ["restore", "copy_from"], ["ask", 2, 0]]},
+    # (A) a non-committing ask whose `_fill_stack` proposes points that are pending ALREADY keeps them pending.  The real
+    # geometry never proposes a vertex of its own triangulation, so this history runs with the STUB `_choose_vertex` (see
+    # there) while the two non-committing asks run: the four corners are pending, the stubbed `_fill_stack` proposes corners.
+    {"name": "nocommit_keeps_prior_pending_STUB_GEOMETRY", "seed": 1, "nops": 0, "bounds": 1, "fn": "smooth",
+     "script": [["ask", 4, 1], ["tell_pending", (0.25, -0.5)], ["stub", "vertex"], ["ask", 2, 0], ["ask", 1, 0],
+                ["stub", None], ["ask", 2, 0], ["tell_all"], ["ask", 3, 1]],
+     "expect": ["ask_noncommit_returned_point_pending_before"]},
+    # (B) a non-committing ask that raises `ValueError("too few points...")` out of `_fill_stack` AFTER it has marked stack
+    # entries pending: three corners and an inner point marked pending, a pickle round trip (drops the pending set, keeps the
+    # stack: one corner), one point marked pending again; `ask(2, False)` takes the corner off the stack, marks it, and
+    # `_fill_stack` sees 0 evaluated + 2 pending < 3 points.  The learner afterwards is the learner before; the committing
+    # twin keeps its mark and its shortened stack.
+    {"name": "nocommit_raises_restores", "seed": 1, "nops": 0, "bounds": 1, "fn": "smooth",
+     "script": [["tell_pending", (-1, -1)], ["tell_pending", (-1, 1)], ["tell_pending", (1, -1)], ["restore", "pickle"],
+                ["tell_pending", (0.25, -0.5)], ["ask", 2, 0], ["ask", 1, 0], ["ask", 3, 0], ["ask", 2, 1]],
+     "expect": ["ask_noncommit_raised_after_marking_stack_entries"]},
 ]
+
+# counters that must never appear (checked on the real learner, independently of the Lean model)
+FORBIDDEN = ["ask_noncommit_CHANGED_PENDING", "ask_noncommit_raised_CHANGED_STATE"]
 
 # ---------------------------------------------------------------- lock-step against the Lean driver
 def _one(case):
     try:
         lines, outs, l, stats, err = execute(case, case.get("script"))
+        missing = [k for k in case.get("expect", []) if not stats.get(k)]
+        broken = [k for k in FORBIDDEN if stats.get(k)]
+        if missing or broken:
+            err = f"harness: expected counters missing {missing}, forbidden counters present {broken}; err={err}"
         return {"lines": lines, "impl": outs, "meta": case, "stats": stats, "err": err}
     except Exception:  # noqa: BLE001
         return {"lines": [], "impl": [], "meta": case, "stats": {}, "err": "harness: " + traceback.format_exc()[-1500:]}
